@@ -23,6 +23,9 @@ impl Run {
     }
 }
 
+/// set for the `cli` family: children get an address-space and CPU limit
+pub static LIMIT_CHILDREN: std::sync::atomic::AtomicBool = std::sync::atomic::AtomicBool::new(false);
+
 pub fn sfs(ctx: &Ctx, args: &[&str], stdin: Option<&[u8]>) -> Run {
     sfs_env(ctx, args, stdin, &[])
 }
@@ -91,7 +94,9 @@ pub fn sfs_env(ctx: &Ctx, args: &[&str], stdin: Option<&[u8]>, env: &[(&str, &st
         cmd.env(k, v);
     }
     // safety net for the sandbox, far above anything a scenario needs: 24 GiB of address space, 300 s of CPU
-    unsafe {
+    // (only where absurd scenarios are run: pre_exec makes std fork instead of posix_spawn, which is much slower)
+    if LIMIT_CHILDREN.load(std::sync::atomic::Ordering::Relaxed) {
+      unsafe {
         use std::os::unix::process::CommandExt;
         cmd.pre_exec(|| {
             let r = libc::rlimit { rlim_cur: 24 << 30, rlim_max: 24 << 30 };
@@ -100,6 +105,7 @@ pub fn sfs_env(ctx: &Ctx, args: &[&str], stdin: Option<&[u8]>, env: &[(&str, &st
             libc::setrlimit(libc::RLIMIT_CPU, &c);
             Ok(())
         });
+      }
     }
     let mut child = cmd.spawn().unwrap_or_else(|e| panic!("cannot run {}: {e}", ctx.sfs_bin));
     if let Some(bytes) = stdin {
